@@ -273,7 +273,32 @@ JudgeMarginal(r) ==
 
 Output(r) == IF r.op = "measure" THEN MeasureOutput(r) ELSE {}
 
+(***************************************************************************)
+(* C08: no silent wrong answers.  request: one call of a circuit API with  *)
+(* ARBITRARY operators (given: signed Pauli codes, valid or not).           *)
+(* outcome = "raise" | "return"; gates = returned circuit; validate = what *)
+(* Stabilizer.validate() answered (-1 if it could not be asked).           *)
+(***************************************************************************)
+JudgeRequest(r) ==
+   LET valid == ValidStabilizer(r.n, r.given)
+       z0 == [i \in 1..r.n |-> ZOn(i - 1)]
+       wf == \A i \in 1..Len(r.gates) : WellFormed(r.gates[i], r.n)
+   IN  C(r.validate = -1 \/ (r.validate = 1) = valid, "validate")
+       \cup (IF r.outcome = "raise" THEN {}
+             ELSE C(wf, "unknown-gate")
+                  \cup (IF ~wf THEN {}
+                        ELSE IF r.api = "prep"
+                        THEN C(valid, "prepared-nonstabilizer")
+                             \cup C(~valid \/ (\A i \in 1..Len(r.given) : r.given[i] \in SignedSpan(ApplySeqTab(r.gates, z0))), "wrong-state")
+                        ELSE C(\A i \in 1..Len(r.given) : ZType(ApplySeq(r.gates, r.given[i])), "not-diagonal")))
+(* config: one entry point called with a (qubit count, connectivity name) pair, advertised or not *)
+JudgeConfig(r) == C((r.outcome = "return") = IsSupported(r.n, r.name), "config-gate")
+JudgeAvailable(r) == C({<<r.list[i][1], r.list[i][2]>> : i \in 1..Len(r.list)} = Supported /\ Len(r.list) = Cardinality(Supported), "available")
+
 Judge(r) == CASE r.op = "classify" -> JudgeClassify(r)
+              [] r.op = "request" -> JudgeRequest(r)
+              [] r.op = "config" -> JudgeConfig(r)
+              [] r.op = "available" -> JudgeAvailable(r)
               [] r.op = "measure" -> {}
               [] r.op = "fitter" -> JudgeFitter(r)
               [] r.op = "tomo" -> JudgeTomo(r)
